@@ -62,3 +62,12 @@ claim("C05",
       "floating-point behaviour of math.Mod is not decided.",
       "go/ssa lowering; no library summaries are used by NormalizeBounds",
       "DESIGN.md §2 C05")
+
+ENGINE_A = ("abstract interpretation of the generator over go/ssa on symbolic schema families -> emitted-code skeletons with holes -> go/parser + AST normalisation of reject branches compared with a family-derived oracle")
+claim("C06", ENGINE_A,
+      "Decides, for a string property in 6 positions (required, optional, nullable in both orders, behind both kinds of definition reference) x all 8 subsets of {minLength, maxLength, pattern}, "
+      "for both emitted methods (JSON, YAML) and for ALL names, limits and patterns at once (they are symbolic), that the emitted unmarshaler has exactly one reject branch per stated keyword with the "
+      "right operator, limit and measure, none for absent keywords, nil-guarded iff the field is a pointer; that the length measure counts characters; that no error result is discarded; that no "
+      "schema text is used as a format string. The bound is the tree shape of the family, not the values. Three known findings (byte length twice, discarded regexp error). Regexp dialect differences are not decided.",
+      "summaries of fmt/strings/sort/unicode/litter/wordwrap listed in the evidence; Identifierize replaced by its specification for symbolic names (decided separately under C14); distinct atoms denote distinct strings",
+      "DESIGN.md §1.1, §2 C06")
